@@ -22,6 +22,13 @@ impl Sexp {
     self.atom().parse().unwrap_or_else(|_| panic!("expected int, got {self:?}"))
   }
   pub fn usize(&self) -> usize {
+    // counts far beyond any script a case can hold (the model runs them as 5000)
+    match self.atom() {
+      "big" => return usize::MAX,
+      "big1" => return usize::MAX - 1,
+      "mid" => return 1usize << 33,
+      _ => {}
+    }
     self.atom().parse().unwrap_or_else(|_| panic!("expected usize, got {self:?}"))
   }
   /// head symbol of a list, or the atom itself
